@@ -178,6 +178,20 @@ class SimSocket:
     def makefile(self, *a, **k):
         raise HarnessError("socket.makefile is not simulated")
 
+    family = _real_socket.AF_INET
+    type = _real_socket.SOCK_STREAM
+    proto = 0
+
+    def getsockopt(self, *a):
+        return 0
+
+    def __getattr__(self, name):
+        # something a real socket has and this stand-in lacks is the harness's gap, not a
+        # defect of the code that uses it
+        if not name.startswith("_") and hasattr(_real_socket.socket, name):
+            raise HarnessError(f"socket.socket.{name} is not simulated")
+        raise AttributeError(name)
+
 
 class Peer:
     def __init__(self, no, host, port, segments, close_after=False):
